@@ -7,6 +7,7 @@ import random
 from .. import apiworld as AW
 from .. import harness as H
 from .. import refmodel as RM
+from ..sockworld import quiesce
 from . import c10
 
 ID = "C12"
@@ -24,7 +25,8 @@ ASSUMPTIONS = ["subscribers are async callables that raise inside the coroutine 
                "(contract type Callable[..., Awaitable])",
                "change classification comes from the reference model fed the same bytes"]
 REQUIRED_OBS = ["must_verdicts", "must_not_verdicts", "repeat_frames", "raising_subscribers",
-                "zone_to_ac_forwarding", "unsubscribed_silent", "double_subscription"]
+                "zone_to_ac_forwarding", "unsubscribed_silent", "double_subscription",
+                "after_reinit", "single_field_changes"]
 BUDGET = {"quick": 100, "thorough": 1500}
 
 
@@ -33,7 +35,7 @@ def cases(tier, seed):
     n = 250 if tier == "quick" else 60000
     for i in range(n):
         yield {"gen": rnd.choice((4, 5)), "seed": rnd.randrange(1 << 30),
-               "n": rnd.randint(3, 25), "raise_mask": i % 16}
+               "n": rnd.randint(3, 25), "raise_mask": i % 16, "reinit": i % 5 == 0}
 
 
 def run_case(case):
@@ -50,6 +52,19 @@ def run_case(case):
             viol.append({"mechanism": "init-failed-on-plain-console", "detail": {"ret": ok}})
             return
         at = w.at
+        if case.get("reinit"):
+            # subscribers are attached to the objects of a SECOND init of the same client
+            await at.shutdown()
+            await quiesce(loop)
+            from ..refmodel import RefModel
+            w.model = RefModel(gen)
+            w._bufs.clear()
+            w.feed()            # discard what was delivered before
+            w.model = RefModel(gen)
+            if await w.init_and_sync() is not True:
+                viol.append({"mechanism": "reinit-failed", "detail": {}})
+                return
+            obs["after_reinit"] = 1
         subs = []   # dict(sub, kind, ent, target, subscribed)
         mask = case["raise_mask"]
 
@@ -92,6 +107,8 @@ def run_case(case):
             if last_raw is not None and rnd.random() < 0.33:
                 raw = last_raw
                 obs["repeat_frames"] = obs.get("repeat_frames", 0) + 1
+            elif rnd.random() < 0.35:
+                raw = c10.one_field_frame(gen, rnd, w, obs)
             else:
                 raw = c10.make_frame(gen, rnd, w, None, obs)
             last_raw = raw
